@@ -1642,6 +1642,8 @@ KNOWN_PROBES: T.List[ProbeT] = [
 ]
 
 FIXED_PROBES: T.List[ProbeT] = [
+    ('reprint/string-trailing-backslash', 'a string value that ends in a backslash in a re-printed call',
+     lambda: _add(_prog("install_dir: 'C:\\\\tools\\\\'"), 1)),
     ('effect/kwargs-set:cli-bool-false', '`kwargs set target prog install false` on the command line',
      lambda: mk(_prog('install: true'), [{'mode': 'cli', 'cmds': [{'type': 'kwargs', 'function': 'target', 'id': 'prog', 'operation': 'set',
                                                                   'kwargs': {'install': 'false'}, '_allowed': [[BUILD_FILE, 1]]}]}])),
@@ -1897,7 +1899,7 @@ class TreeGen:
             if names and self.chance(40):
                 return ['id', self.pick(names)]
             # (source text between the quotes: escapes for quote, backslash, CR, LF, tab are part of what must survive a re-print)
-            return ['str', self.pick(['-DX=', 'foo', 'a b', 'lib', 'x_', "it\\'s", 'C:\\\\dir', 'l1\\r\\nl2', 'cr\\rx', 't\\tb', 'é✓']), 's']
+            return ['str', self.pick(['-DX=', 'foo', 'a b', 'lib', 'x_', "it\\'s", 'C:\\\\dir', 'C:\\\\tools\\\\', 'ends\\\\', 'l1\\r\\nl2', 'cr\\rx', 't\\tb', 'é✓']), 's']
 
         def int_trap() -> list:
             k = self.i(11)
@@ -2601,6 +2603,12 @@ class TreeGen:
             elif k == 'extra_rm':
                 name = subject()
                 have = cur(name)['extra']
+                if self.chance(30) and cur(name)['sources']:
+                    # a file that is a SOURCE of the target, not one of its extra files: nothing to remove there, and the sources stay
+                    f = self.pick(cur(name)['sources'])
+                    if f not in have and not f.startswith('<'):
+                        push(src_cmd(name, 'extra_files_rm', [f]))
+                        return
                 if not have:
                     return
                 push(src_cmd(name, 'extra_files_rm', [self.pick(have)]))
